@@ -1144,3 +1144,79 @@ Proof.
   { apply FinFun.Injective_map_NoDup; [|exact Hnd]. intros x y E. injection E. auto. }
   pose proof (NoDup_incl_length Hnd' Hincl) as H. rewrite !map_length in H. exact H.
 Qed.
+
+(* ---------------------------------------------------------------- wildcards in - and == : the exact failing domain *)
+(* raw-compared categories (ABSORPTION, ELIMINATION, LAGTIME, METABOLITE): as soon as both sides are present and one
+   of them is `*`, both `-` and `==` are an internal error -- for every category descriptor, every mode list *)
+Lemma opt_sub_raw_wildcard_raises c a b :
+  cd_eq c = EqRaw -> cd_wild c <> [] ->
+  modes_ok (cd_wild c) (Some a) = true -> modes_ok (cd_wild c) (Some b) = true ->
+  a = MWild \/ b = MWild ->
+  opt_sub c (Some a) (Some b) = TypeError /\ opt_eq c (Some a) (Some b) = TypeError.
+Proof.
+  intros He Hw Ha Hb Hwild. unfold opt_sub, opt_eq, stmt_eq. rewrite (truthy_ok _ _ Hw Ha), (truthy_ok _ _ Hw Hb), He. cbn [bind].
+  destruct Hwild as [-> | ->]; [split; reflexivity|]. destruct a as [| l |]; cbn in Ha; try discriminate; split; reflexivity.
+Qed.
+
+(* PERIPHERALS: the first statement with a `*` mode makes _extract_peripherals (hence +, -, contain_subset, lnt) fail *)
+Lemma extract_peripherals_wildcard_raises pre p post : forall met drug,
+  forallb periph_plain pre = true -> p_keys p = MWild ->
+  extract_peripherals (pre ++ p :: post) met drug = TypeError.
+Proof.
+  induction pre as [|q pre IH]; intros met drug Hpre Hp.
+  - cbn. rewrite Hp. reflexivity.
+  - cbn in Hpre. apply andb_true_iff in Hpre. destruct Hpre as [Hq Hpre]. unfold periph_plain in Hq.
+    cbn [List.app extract_peripherals].
+    destruct (p_vals q) as [| cs |]; try discriminate. destruct (p_keys q) as [| ms |]; try discriminate.
+    cbn [list_of bind]. apply IH; assumption.
+Qed.
+
+(* eval-compared categories (DIRECTEFFECT, EFFECTCOMP): `-` works with `*` on either side and is the set difference *)
+Lemma opt_sub_eval_wildcards c lhs rhs :
+  cd_eq c = EqEval -> cd_sub c = SubNone -> cd_wild c <> [] ->
+  modes_ok (cd_wild c) lhs = true -> modes_ok (cd_wild c) rhs = true ->
+  pd_diff_ok (cd_wild c) lhs rhs = true ->
+  exists r, opt_sub c lhs rhs = Ok r /\ r <> Some MNone /\
+    forall x, In x (E_modes (cd_wild c) r) <-> In x (diffN (E_modes (cd_wild c) lhs) (E_modes (cd_wild c) rhs)).
+Proof.
+  intros He Hs Hw Hl Hr Hpd.
+  destruct lhs as [[| l1 |]|]; destruct rhs as [[| l2 |]|]; cbn in Hl, Hr; try discriminate.
+  - (* * - * *)
+    exists None. unfold opt_sub, stmt_eq. rewrite (truthy_ok (cd_wild c) (Some MWild) Hw eq_refl). cbn [bind]. rewrite He.
+    cbn [modes_eq_eval modes_eq_raw eval_modes bind E_modes].
+    assert (seteqN (cd_wild c) (cd_wild c) = true) by (apply seteqN_spec; tauto). rewrite H. cbn [bind].
+    split; [reflexivity|]. split; [discriminate|]. intro x. rewrite In_diffN. cbn. tauto.
+  - (* * - list *)
+    unfold opt_sub, stmt_eq. rewrite (truthy_ok (cd_wild c) (Some MWild) Hw eq_refl), (truthy_ok (cd_wild c) (Some (MList l2)) Hw Hr). cbn [bind]. rewrite He.
+    cbn [modes_eq_eval modes_eq_raw eval_modes bind E_modes].
+    apply andb_true_iff in Hr. destruct Hr as [Hne Hsub]. apply subsetN_spec in Hsub.
+    destruct (seteqN (cd_wild c) l2) eqn:Eq.
+    + exists None. split; [reflexivity|]. split; [discriminate|]. intro x. rewrite In_diffN. cbn.
+      pose proof (proj1 (seteqN_spec _ _) Eq x). tauto.
+    + rewrite Hs. cbn [modes_sub_none]. destruct (diffN (cd_wild c) l2) as [|y d] eqn:Ed.
+      * exfalso. assert (seteqN (cd_wild c) l2 = true); [|congruence]. apply seteqN_spec. intro x. split; [|apply Hsub].
+        intro Hx. destruct (in_dec N.eq_dec x l2) as [H|H]; [exact H|]. exfalso.
+        assert (In x (diffN (cd_wild c) l2)) by (apply In_diffN; auto). rewrite Ed in H0. exact H0.
+      * exists (Some (MList (y :: d))). split; [reflexivity|]. split; [discriminate|]. intro x. cbn [E_modes eval_modes]. tauto.
+  - (* * - nothing *)
+    exists (Some MWild). unfold opt_sub. rewrite (truthy_ok (cd_wild c) (Some MWild) Hw eq_refl). cbn [bind truthy]. split; [reflexivity|]. split; [discriminate|].
+    intro x. rewrite In_diffN. cbn. tauto.
+  - (* list - * *)
+    unfold opt_sub, stmt_eq. rewrite (truthy_ok (cd_wild c) (Some (MList l1)) Hw Hl), (truthy_ok (cd_wild c) (Some MWild) Hw eq_refl). cbn [bind]. rewrite He.
+    cbn [modes_eq_eval modes_eq_raw eval_modes bind E_modes].
+    apply andb_true_iff in Hl. destruct Hl as [Hne Hsub]. apply subsetN_spec in Hsub.
+    exists None. split.
+    + destruct (seteqN l1 (cd_wild c)); [reflexivity|]. rewrite Hs. reflexivity.
+    + split; [discriminate|]. intro x. rewrite In_diffN. cbn. split; [tauto|]. intros [H1 H2]. apply H2, Hsub, H1.
+  - (* list - list : the plain case *)
+    destruct (opt_sub_difference c (Some (MList l1)) (Some (MList l2)) Hw Hl Hr (fun _ => Hpd)) as [r [E [H1 [H2 [H3 H4]]]]].
+    exists r. split; [exact E|]. split; [exact H4|]. intro x. split; [|apply H1].
+    destruct (diffN (E_modes (cd_wild c) (Some (MList l1))) (E_modes (cd_wild c) (Some (MList l2)))) as [|y d] eqn:Ed.
+    + rewrite Hs in H3. rewrite (H3 eq_refl). cbn. tauto.
+    + apply H2. discriminate.
+  - exists (Some (MList l1)). unfold opt_sub. rewrite (truthy_ok (cd_wild c) (Some (MList l1)) Hw Hl). cbn [bind truthy]. split; [reflexivity|].
+    split; [discriminate|]. intro x. rewrite In_diffN. cbn. tauto.
+  - exists None. split; [reflexivity|]. split; [discriminate|]. intro x. rewrite In_diffN. cbn. tauto.
+  - exists None. split; [reflexivity|]. split; [discriminate|]. intro x. rewrite In_diffN. cbn. tauto.
+  - exists None. split; [reflexivity|]. split; [discriminate|]. intro x. rewrite In_diffN. cbn. tauto.
+Qed.
